@@ -472,6 +472,9 @@ def run_sim(plan, stats):
         events.append([si, c, k, bool(ent.get('dup')), sha(e)[:16]])
         bump('steps')
         bump(('r.%s.' % o[0]) + step['fn'])
+        if not step['fn'].startswith('caller.') and o[0] != 'skip':
+            use = budget._state['count'] / float(budget.limit_for(_n_of(objs)))
+            bump('budget_use.' + ('<1%' if use < 0.01 else '<10%' if use < 0.1 else '<50%' if use < 0.5 else '<100%' if use <= 1 else 'exceeded'))
         if o[0] == 'div':
             bump('budget_hits')
         # P1 at public call boundaries
